@@ -76,7 +76,7 @@ func genCrud(r *gen.R, sess int) sched.Op {
 }
 
 func genScenario(r *gen.R) sched.Scenario {
-	kinds := []string{"crud", "crud", "session", "session", "wtx", "shared", "shared", "close", "direct", "stream", "endstart", "store", "store", "closequeue", "staleabort"}
+	kinds := []string{"crud", "crud", "session", "session", "wtx", "shared", "shared", "close", "direct", "stream", "endstart", "store", "store", "closequeue", "staleabort", "rmw", "rmw"}
 	kind := kinds[r.N(len(kinds))]
 	return genScenarioKind(r, kind)
 }
@@ -118,6 +118,28 @@ func genScenarioKind(r *gen.R, kind string) sched.Scenario {
 			sc.Actors = append(sc.Actors, s)
 		}
 		sc.FileStore = r.P(25)
+	case "rmw":
+		// read-modify-write calls (queue pops with a sort, a competing claim, upserts) queue behind a
+		// holder of the write token (session transaction or a writer parked inside its commit); each of
+		// them must choose its job on the state at its OWN commit point (directed in directedFor)
+		sc.Sessions = 1
+		sc.Queue = 2 + r.N(3)
+		if r.P(60) {
+			sc.Actors = append(sc.Actors, []sched.Op{{Kind: "sstart", Sess: 1}, {Kind: []string{"inc", "pop", "claim"}[r.N(3)], Sess: 1}, {Kind: []string{"scommit", "scommit", "sabort"}[r.N(3)], Sess: 1}})
+		} else {
+			sc.Actors = append(sc.Actors, []sched.Op{{Kind: []string{"inc", "claim", "pop"}[r.N(3)]}})
+		}
+		for k, nw := 0, 2+r.N(3); k < nw; k++ {
+			var s []sched.Op
+			for j := 1 + r.N(2); j > 0; j-- {
+				op := sched.Op{Kind: []string{"pop", "pop", "popu", "popu", "claim", "ups", "rups"}[r.N(7)]}
+				if op.Kind == "claim" && r.P(40) {
+					op.N = 1 + r.N(sc.Queue)
+				}
+				s = append(s, op)
+			}
+			sc.Actors = append(sc.Actors, s)
+		}
 	case "closequeue":
 		// Engine.Close while writers are queued for the write token with different kinds of contexts:
 		// actor 1 holds the token (session transaction or direct locked Begin), actors 2.. wait, the
@@ -296,7 +318,7 @@ func genScenarioKind(r *gen.R, kind string) sched.Scenario {
 		for a := range sc.Actors {
 			for i := range sc.Actors[a] {
 				switch sc.Actors[a][i].Kind {
-				case "inc", "ins", "fau", "ins3", "upd0", "wtx", "ebegin":
+				case "inc", "ins", "fau", "ins3", "upd0", "wtx", "ebegin", "pop", "popu", "claim", "ups":
 					if sc.Actors[a][i].Ctx == "" && r.P(50) {
 						sc.Actors[a][i].Ctx = []string{"bg", "timeout"}[r.N(2)]
 					}
@@ -398,6 +420,9 @@ func schedCaseOf(o *sched.Outcome, stream string) run.Case {
 			if op.Fault != "" {
 				faults[op.Fault] = true
 			}
+			if op.Ctx != "" {
+				tags = append(tags, "ctx:"+op.Ctx, "ctx:"+op.Ctx+"@"+sc.Kind)
+			}
 		}
 	}
 	for f := range faults {
@@ -429,6 +454,14 @@ func schedCaseOf(o *sched.Outcome, stream string) run.Case {
 	if o.Deadlocked || o.Stalled || len(o.Trace) == 0 {
 		c.Tags = dedup(tags)
 		c.Impl = `{"aborted":true}`
+		return c
+	}
+	if o.TornDown {
+		// the controller ended a client-held transaction so that a token waiter could finish (in real
+		// time: the one-minute token timeout); that Abort is not an actor's step, so the trace is not
+		// replayed on the model — monitors only
+		c.Tags = dedup(append(tags, "teardown:client-txn"))
+		c.Impl = `{"teardown":"client-txn"}`
 		return c
 	}
 	for _, s := range sc.Actors {
@@ -519,6 +552,20 @@ func directedFor(r *gen.R, sc sched.Scenario) sched.Chooser {
 		}
 		for a := 2; a <= n; a++ {
 			steps = append(steps, sched.Directive{Actor: a, Until: "done"})
+		}
+	case "rmw":
+		if r.P(80) {
+			// the holder takes the token (session: after StartTransaction; plain writer: parked at its
+			// commit), the read-modify-write calls queue behind it, then the holder lets go
+			until := "op.start"
+			if len(sc.Actors[0]) == 1 {
+				until = []string{"begin.acquired", "commit.locked", "store.enter"}[r.N(3)]
+			}
+			steps = []sched.Directive{{Actor: 1, Until: until}}
+			for a := 2; a <= n; a++ {
+				steps = append(steps, sched.Directive{Actor: a, Until: "done"})
+			}
+			steps = append(steps, sched.Directive{Actor: 1, Until: "done"})
 		}
 	case "closequeue":
 		if r.P(85) {
@@ -665,6 +712,36 @@ func corpusScenarios() ([]sched.Scenario, map[int][]sched.Directive) {
 		directed[len(out)-1] = []sched.Directive{{Actor: 1, Until: "op.start"}, {Actor: 1, Until: "op.start"}, {Actor: 2, Until: "op.start"},
 			{Actor: 3, Until: "done"}, {Actor: 1, Until: "done"}, {Actor: 3, Until: "done"}, {Actor: 2, Until: "done"}}
 	}
+	// a writer with a Background context waits for the token that an open session transaction holds, and
+	// the steps that would end that transaction come after the blocked call: NOT a deadlock (the real
+	// wait ends with the token timeout) — the controller ends the client-held transaction and goes on
+	for _, ctx := range []string{"bg", "timeout", ""} {
+		out = append(out, S("shared", 1, true,
+			[]sched.Op{o("sstart", 1), {Kind: "upd0", Sess: 1, Ctx: ctx}, o("send", 1), o("sabort", 1)}, []sched.Op{o("sstart", 1)}, []sched.Op{o("find", 0)}))
+		directed[len(out)-1] = []sched.Directive{{Actor: 2, Until: "begin.acquired"}, {Actor: 1, Until: "op.start"}, {Actor: 1, Until: "done"}, {Actor: 2, Until: "done"}, {Actor: 1, Until: "done"}}
+	}
+	// read-modify-write must be ONE transaction: pops (sorted FindOneAndDelete / FindOneAndUpdate) and a
+	// claim of the best job queue behind a session transaction that holds the token
+	for v := 0; v < 4; v++ {
+		var acts [][]sched.Op
+		switch v {
+		case 0:
+			acts = [][]sched.Op{{o("sstart", 1), o("scommit", 1)}, {o("pop", 0)}, {o("pop", 0)}, {o("pop", 0)}}
+		case 1:
+			acts = [][]sched.Op{{o("sstart", 1), o("scommit", 1)}, {o("claim", 0)}, {o("pop", 0)}, {o("popu", 0)}}
+		case 2:
+			acts = [][]sched.Op{{o("sstart", 1), o("inc", 1), o("scommit", 1)}, {o("popu", 0)}, {o("popu", 0)}, {o("claim", 0)}}
+		case 3:
+			acts = [][]sched.Op{{o("sstart", 1), o("sabort", 1)}, {o("ups", 0)}, {o("ups", 0)}, {o("rups", 0), o("rups", 0)}}
+		}
+		sc := S("rmw", 1, false, acts...)
+		sc.Queue = 2
+		if v == 0 {
+			sc.Queue = 2 // three pops on two jobs: the third legitimately finds nothing
+		}
+		out = append(out, sc)
+		directed[len(out)-1] = []sched.Directive{{Actor: 1, Until: "op.start"}, {Actor: 2, Until: "done"}, {Actor: 3, Until: "done"}, {Actor: 4, Until: "done"}, {Actor: 1, Until: "done"}}
+	}
 	// client misuse: a finished transaction is committed again while others write
 	for i := 0; i < 6; i++ {
 		out = append(out, S("direct", 0, false,
@@ -751,6 +828,8 @@ func tinyScenarios() []sched.Scenario {
 		{Kind: "close", Actors: [][]sched.Op{{o("inc", 0)}, {{Kind: "close"}}}},
 		{Kind: "close", Sessions: 1, Actors: [][]sched.Op{{o("sstart", 1), o("scommit", 1)}, {{Kind: "close"}}}},
 		{Kind: "close", Actors: [][]sched.Op{{o("inc", 0), o("find", 0)}, {{Kind: "close"}, o("inc", 0)}}},
+		{Kind: "rmw", Queue: 2, Actors: [][]sched.Op{{o("pop", 0)}, {o("pop", 0)}, {o("claim", 0)}}},
+		{Kind: "rmw", Queue: 1, Actors: [][]sched.Op{{o("popu", 0)}, {o("pop", 0)}}},
 		{Kind: "stream", Actors: [][]sched.Op{{{Kind: "watch", Stream: 1}, {Kind: "next", Stream: 1}}, {o("ins", 0)}}},
 		{Kind: "stream", Actors: [][]sched.Op{{{Kind: "watch", Stream: 1}, {Kind: "next", Stream: 1}}, {{Kind: "close"}}}},
 	}
